@@ -1,9 +1,99 @@
+/-
+C19 — string codecs round-trip; string helpers match their documented semantics.
+
+Theorems over the executable models (Model/C19*.lean, transliterations of the code
+after the `fix:` commits; tables regenerated from the sources into Gen/C19Tables.lean).
+-/
 import TlxVerif.Model.C19Codec
 import TlxVerif.Model.C19Split
 import TlxVerif.Model.C19Helpers
+import TlxVerif.Model.C19Spec
+import TlxVerif.Proofs.C19Codec
 namespace TlxVerif.C19
+open TlxVerif.C18 (Bytes npos)
+
+/-! ## base64 -/
 
 /-- the generated decoding table inverts the generated encoding table -/
-theorem dec64_enc64 : ∀ i : Fin 64, dec64 (enc64 (UInt8.ofNat i.val)) = UInt8.ofNat i.val := by decide
+theorem dec64_enc64 : ∀ i : Fin 64, dec64 (enc64 (UInt8.ofNat i.val)) = UInt8.ofNat i.val := by decide +kernel
+
+/-- the generated encoding table is the RFC 4648 alphabet -/
+theorem encoding64_is_rfc : Gen.encoding64 = Spec.alphabet := by decide +kernel
+
+/-- `base64_decode(base64_encode(s, line_break)) = s` for every byte string, in both strict
+modes — and for *every* line-break width (the documented ones are 0 and the multiples of 4) -/
+theorem base64_roundtrip (s : Bytes) (lb : Nat) (strict : Bool) :
+    base64Decode (base64Encode s lb) strict = some s := by
+  unfold base64Decode base64Encode
+  split
+  · rename_i h
+    have : s = [] := List.isEmpty_iff.mp h
+    subst this
+    simp [decodeLoop]
+  · exact decode_encodeLoop strict lb s 0 0
+
+example : base64Encode [102, 111, 111, 98, 97] 4 = [90, 109, 57, 118, 10, 89, 109, 69, 61] ∧
+    base64Decode [90, 109, 57, 118, 10, 89, 109, 69, 61] true = some [102, 111, 111, 98, 97] := by decide
+
+/-- apart from the requested line breaks the output is the RFC 4648 encoding (any width) -/
+theorem base64_is_rfc (s : Bytes) (lb : Nat) : (base64Encode s lb).filter (· != 10) = Spec.base64 s := by
+  unfold base64Encode
+  split
+  · rename_i h
+    have : s = [] := List.isEmpty_iff.mp h
+    subst this
+    simp [Spec.base64]
+  · exact encodeLoop_filter lb s 0
+
+/-- with `line_break = 0` the output *is* the RFC 4648 encoding -/
+theorem base64_plain_is_rfc (s : Bytes) : base64Encode s 0 = Spec.base64 s := by
+  unfold base64Encode
+  split
+  · rename_i h
+    have : s = [] := List.isEmpty_iff.mp h
+    subst this
+    simp [Spec.base64]
+  · exact encodeLoop_zero s 0
+
+example : Spec.base64 [102, 111, 111] = [90, 109, 57, 118] := by decide
+
+/-! ## hexdump -/
+
+/-- `parse_hexdump(hexdump(s)) = s` -/
+theorem hexdump_roundtrip : ∀ s : Bytes, parseHexdump (hexdump s) = some s
+  | [] => rfl
+  | b :: t => by
+    obtain ⟨h1, h2, h3, _, _⟩ := hex_byte_uc b
+    have ih := hexdump_roundtrip t
+    unfold hexdump hexdumpWith at ih ⊢
+    simp only [List.flatMap_cons, List.cons_append, List.nil_append, parseHexdump, h1, h2, ih, Option.map_some, h3]
+
+/-- `parse_hexdump(hexdump_lc(s)) = s` -/
+theorem hexdump_lc_roundtrip : ∀ s : Bytes, parseHexdump (hexdumpLc s) = some s
+  | [] => rfl
+  | b :: t => by
+    obtain ⟨h1, h2, _, _⟩ := hex_byte_lc b
+    obtain ⟨_, _, h3, _, _⟩ := hex_byte_uc b
+    have ih := hexdump_lc_roundtrip t
+    unfold hexdumpLc hexdumpWith at ih ⊢
+    simp only [List.flatMap_cons, List.cons_append, List.nil_append, parseHexdump, h1, h2, ih, Option.map_some, h3]
+
+/-- `hexdump` / `hexdump_lc` are the RFC 4648 §8 base-16 encodings -/
+theorem hexdump_is_base16 (s : Bytes) : hexdump s = Spec.base16 Spec.hexDigitUC s := by
+  unfold hexdump hexdumpWith Spec.base16
+  congr 1
+  funext b
+  obtain ⟨_, _, _, h4, h5⟩ := hex_byte_uc b
+  rw [h4, h5]
+
+theorem hexdump_lc_is_base16 (s : Bytes) : hexdumpLc s = Spec.base16 Spec.hexDigitLC s := by
+  unfold hexdumpLc hexdumpWith Spec.base16
+  congr 1
+  funext b
+  obtain ⟨_, _, h4, h5⟩ := hex_byte_lc b
+  rw [h4, h5]
+
+example : hexdump [0, 255, 16] = [48, 48, 70, 70, 49, 48] ∧ parseHexdump [48, 48, 102, 70, 49, 48] = some [0, 255, 16] := by
+  decide
 
 end TlxVerif.C19
